@@ -172,6 +172,29 @@ Example c08_ex_other_actor :
   map q3 (rows ex_cfg ex_cast ex_items "bob" ("db2", "load")) = [ (7 # 4, VNum 10) ]%Q.
 Proof. vm_compute. reflexivity. Qed.
 
+(** A blank line (empty once trimmed) and a pattern that also matches the
+    empty string, like the shipped whole-line event patterns: one point, whose
+    text is empty. *)
+Example c08_ex_empty_line_empty_text :
+  rows ex_cfg ex_cast
+       [ ILine "db1" {| l_now := 7; l_facts := [("state", fct "" "")] |};
+         ILine "db1" {| l_now := 8; l_facts := [("state", fct "" "up")] |} ]
+       "ann" ("db1", "state")
+  = [ (secs 7, VStr ""); (secs 8, VStr "up") ].
+Proof. vm_compute. reflexivity. Qed.
+
+(** Siblings of one role keep their own previous sample (sink.lastVal is per
+    actor AND signal, [lasts] is keyed by both): interleaved totals 10, 1000,
+    20, 1005 of db1 / db2 give deltas 10, 10 for db1 and 1000, 5 for db2. *)
+Example c08_ex_siblings_own_last_value :
+  let its := [ ILine "db1" {| l_now := 1; l_facts := [("load", fct "0.5" "10")] |};
+               ILine "db2" {| l_now := 2; l_facts := [("load", fct "0.75" "1000")] |};
+               ILine "db1" {| l_now := 3; l_facts := [("load", fct "1.5" "20")] |};
+               ILine "db2" {| l_now := 4; l_facts := [("load", fct "1.75" "1005")] |} ] in
+  map q3 (rows ex_cfg ex_cast its "bob" ("db1", "load")) = [ (1 # 2, VNum 10); (3 # 2, VNum 10) ]%Q
+  /\ map q3 (rows ex_cfg ex_cast its "bob" ("db2", "load")) = [ (3 # 4, VNum 1000); (7 # 4, VNum 5) ]%Q.
+Proof. vm_compute. split; reflexivity. Qed.
+
 Example c08_ex_premises_hold :
   snd (play ex_cfg ex_cast ex_items) = Running
   /\ List.length (good_lines "db1" ex_load ex_items) = 3%nat
